@@ -5,6 +5,7 @@ from .. import docgen as D, kdoc as K, spine as S
 from ..common import Bad, Result
 
 ID = 'C03'
+SHARDS_QUICK = 4
 RULE = ('Hypothesis-generated abstract documents (kv/docgen.py profile "full": 1-4 spines of the eight supported types, '
         'clef/key/meter/tandem interpretations, every barline type, notes/rests/chords with plain, rational, dotted, '
         'grace and appoggiatura durations, accidentals with display suffixes, signifiers in any order/position/'
@@ -63,6 +64,8 @@ def check(case):
                 if gc != c['e']:
                     raise Bad('cell-not-verbatim', f'source {c["t"]!r} (kind {c["k"]}) exported as {gc!r}, expected {c["e"]!r}',
                               src=c['t'], got=gc, kind=c['k'])
+    if K.via_dump_file(kdoc, expect=out) != out:
+        raise Bad('dump-file', 'kernpy.dump writes a different text than dumps returns for the default export')
     a = S.analyze(doc)
     notes = [n for _, _, c in S.cells(doc) if 'notes' in c for n in c['notes']]
     nt = (len(set(doc['types'])) >= 2 and
@@ -84,12 +87,12 @@ FINDINGS = {'KF-SEP': f_sep}
 def run(ctx):
     if ctx.shard == 0:  # one long score: nothing may depend on the number of rows
         ctx.check_all([{'doc': D.long_document(1200 + 41 * (ctx.seed % 7), ctx.seed)}], check)
-    n = 350 if ctx.quick else 2500
+    n = 110 if ctx.quick else 2500
     ctx.run_hypothesis(D.documents(D.profile('full')).map(lambda d: {'doc': d}), check, max_examples=n, label='full')
-    ctx.run_hypothesis(D.documents(D.profile('sep')).map(lambda d: {'doc': d}), check, max_examples=max(40, n // 8),
+    ctx.run_hypothesis(D.documents(D.profile('sep')).map(lambda d: {'doc': d}), check, max_examples=max(14, n // 8),
                        salt=1, label='sep')
     ctx.run_hypothesis(D.documents(D.profile('full', ext_sigs=True, kern_weight=6)).map(lambda d: {'doc': d}), check,
-                       max_examples=max(60, n // 4), salt=2, label='multi-character-signifiers')
+                       max_examples=max(25, n // 4), salt=2, label='multi-character-signifiers')
 
 
 def replay(case):
